@@ -201,13 +201,13 @@ def run(ctx):
         raise AnalysisError('ControlledOperation._qasm_ vanished')
     from .. import chains
     WANTC = {'XPowGate': 'cx', 'YPowGate': 'cy', 'ZPowGate': 'cz', 'HPowGate': 'ch'}
-    start = chains.longest_chain(cq_, lambda t: chains.isinstance_classes(t, 'gate') is not None)
+    start = chains.longest_chain(cq_, lambda t: chains.isinstance_classes(t) is not None)
     gotc = {}
     if start is not None:
         for test, body in chains.if_chain(start):
             if test is None:
                 continue
-            cn = (dotted(chains.isinstance_classes(test, 'gate')[0]) or '').split('.')[-1]
+            cn = (dotted(chains.isinstance_classes(test)[0]) or '').split('.')[-1]
             lits = [c.value for st in body for c in ast.walk(st) if isinstance(c, ast.Constant) and isinstance(c.value, str)]
             gotc[cn] = lits[0].split()[0] if lits else None
     okc = bool(gotc) and all(WANTC.get(k) == v for k, v in gotc.items())
